@@ -1,14 +1,52 @@
 (* C09: the tree-aware operations of model/GraphTree.v (register_static_tree, the _t variants of the
-   declaration functions, the pre-step of delete_detached) preserve Inv and the frame GG. *)
+   declaration functions, the pre-step of delete_detached) preserve Inv, the frame GG (I4, I5c) and
+   the frame TT (tree conjunct T1). *)
 From Coq Require Import List NArith Bool Lia.
 From SV Require Import lib.Bytes lib.Closure model.Graph model.GraphInv model.GraphTree model.GraphTreeInv
   proofs.GraphBase proofs.GraphNodes proofs.GraphInvP proofs.GraphPrims proofs.GraphFrames proofs.GraphCreate
-  proofs.GraphOps proofs.GraphLife proofs.GraphSucc proofs.GraphProofs.
+  proofs.GraphOps proofs.GraphLife proofs.GraphSucc proofs.GraphTrans proofs.GraphTreeSim proofs.GraphNodeFrame
+  proofs.GraphProofs proofs.GraphTreeT1.
 Import ListNotations.
 Open Scope N_scope.
 
 (* nodes only appear *)
 Definition KI (s s' : st) : Prop := incl (KL (nodes s)) (KL (nodes s')).
+
+Lemma In_insert_str x y l : In x (insert_str y l) -> x = y \/ In x l.
+Proof.
+  induction l as [|z l IH]; cbn; [intros [H|[]]; auto|].
+  destruct (lex_lt y z); cbn; [intros [H|[H|H]]; auto | intros [H|H]; [auto | destruct (IH H); auto]].
+Qed.
+Lemma In_sort_strs x l : In x (sort_strs l) -> In x l.
+Proof.
+  induction l as [|y l IH]; cbn; [auto|]. intros H. apply In_insert_str in H. destruct H as [H|H]; auto.
+Qed.
+
+Lemma find_owning_tree_prefix l s t : find_owning_tree l s = Ok (Some t) -> is_prefix t l = true.
+Proof.
+  unfold find_owning_tree. destruct (owning_trees l s) as [|t0 [|t1 r]] eqn:E; try discriminate.
+  intros H; inversion H; subst t0. clear H.
+  assert (Hin : In t (owning_trees l s)) by (rewrite E; left; reflexivity).
+  unfold owning_trees in Hin. apply in_map_iff in Hin. destruct Hin as [n [Hn1 Hn2]].
+  apply filter_In in Hn2. destruct Hn2 as [_ Hc]. rewrite !andb_true_iff in Hc. subst t. tauto.
+Qed.
+
+Lemma wpg_imp {A} (P : Prop) (r : res A) (Q : A -> Prop) :
+  (P -> wpg false r Q) -> wpg false r (fun a => P -> Q a).
+Proof. destruct r; cbn; auto. Qed.
+
+Lemma add_dep_files a b dyn s s' : add_dep a b dyn s = Ok s' -> files s' = files s.
+Proof.
+  unfold add_dep. destruct (has_dep a b s); [discriminate|]. destruct (negb _); [discriminate|].
+  intros H; inversion H. reflexivity.
+Qed.
+Lemma add_output_edge_files step l dyn s s' : add_output_edge step l dyn s = Ok s' -> files s' = files s.
+Proof. unfold add_output_edge. destruct (would_cycle _ _ s); [discriminate|]. apply add_dep_files. Qed.
+Lemma fold_add_env_files label dyn rep env s : files (fold_left (fun s e => add_env label e dyn rep s) env s) = files s.
+Proof.
+  revert s. induction env as [|e env IH]; intros s; cbn; [reflexivity|]. rewrite IH.
+  destruct (add_env_frame label e dyn rep s) as [_ [E _]]. exact E.
+Qed.
 
 Section HH.
 Context {hh : bool}.
@@ -16,94 +54,157 @@ Context {hh : bool}.
 (* ------------------------------------------------------------------------------------------ *)
 (* _declare_file with the owning-tree guard                                                    *)
 (* ------------------------------------------------------------------------------------------ *)
+Lemma declare_file_TT c l f s :
+  Inv hh s -> (fst c = KTree -> f = FUnconfirmed /\ is_prefix (snd c) l = true) ->
+  wpg false (declare_file c l f s) (TT s).
+Proof.
+  intros HI Htree. unfold declare_file.
+  assert (Hc : (f = FUnconfirmed \/ f = FPlanned \/ f = FVolatile) ->
+               wpg false (create (KFile, l) (Some c) (InitFile f) s) (TT s)).
+  { intros Hf. apply (@create_TT hh); [exact HI | split; [reflexivity | destruct Hf as [->|[->| ->]]; discriminate]|].
+    intros t Hc _. inversion Hc; subst c. destruct (Htree eq_refl) as [-> Hp]. split; [reflexivity | exact Hp]. }
+  destruct f; try exact I; apply wpg_bind; (eapply wpg_weaken; [apply Hc; auto|]); intros s1 H1; cbn [wpg]; try exact H1.
+  destruct (attached_step_sinks l s1); cbn; [exact H1 | exact I].
+Qed.
+
 Lemma declare_file_t_spec c l f s :
   Inv hh s ->
   wpg false (declare_file_t c l f s)
-      (fun s' => Inv hh s' /\ NF [(KFile, l)] s s' /\ In (KFile, l) (KL (nodes s')) /\
+      (fun s' => (Inv hh s' /\ NF [(KFile, l)] s s' /\ In (KFile, l) (KL (nodes s')) /\
                  creator_of (KFile, l) s' = Some c /\
                  (exists st, fstate_of l s' = Some st /\ (st = f \/ out_state st = true)) /\
-                 (creator_quiet (Some c) f s -> GG s s')).
+                 (creator_quiet (Some c) f s -> GG s s')) /\
+                 ((fst c = KTree -> f = FUnconfirmed /\ is_prefix (snd c) l = true) -> TT s s')).
 Proof.
   intros HI. unfold declare_file_t.
   destruct f; try exact I; (destruct (tree_guard c l s) as [[]|t|t]; [|exact I|exact I]); cbn [bind];
-    (apply (@declare_file_spec hh); [exact HI | intros H; discriminate H]).
+    (apply wpg_conj; [apply (@declare_file_spec hh); [exact HI | intros H; discriminate H]
+                     | apply wpg_imp; intros Htree; apply declare_file_TT; assumption]).
+Qed.
+
+Lemma static_declarer_prefix c l s d :
+  (fst c = KTree -> is_prefix (snd c) l = true) ->
+  static_declarer c l s = Ok d -> fst d = KTree -> is_prefix (snd d) l = true.
+Proof.
+  intros Hc. unfold static_declarer. destruct (kind_eqb (fst c) KTree) eqn:Ek.
+  - intros H; inversion H; subst d. exact Hc.
+  - destruct (find_owning_tree l s) as [[t|]|x|x] eqn:Eo; cbn [bind]; try discriminate.
+    + destruct (okey_eqb _ _); [|discriminate]. intros H; inversion H; subst d. intros _. cbn.
+      eapply find_owning_tree_prefix; exact Eo.
+    + intros H; inversion H; subst d. intros E. apply kind_eqb_eq in E. congruence.
 Qed.
 
 Lemma declare_static_files_t_spec c paths s :
-  Inv hh s -> wpg false (declare_static_files_t c paths s) (fun s' => Inv hh s' /\ GG s s' /\ KI s s').
+  Inv hh s ->
+  wpg false (declare_static_files_t c paths s)
+      (fun s' => Inv hh s' /\ GG s s' /\ KI s s' /\
+                 ((fst c = KTree -> forall l, In l paths -> is_prefix (snd c) l = true) -> TT s s')).
 Proof.
   intros HI. unfold declare_static_files_t. destruct (negb _); [exact I|].
-  apply wpg_bind. destruct (foldM _ paths []) as [todo|t|t]; try exact I. cbn [wpg].
-  apply (wpg_foldM false _ (fun s' => Inv hh s' /\ GG s s' /\ KI s s')).
-  - intros s1 dl _ [I1 [G1 K1]]. eapply wpg_weaken; [apply declare_file_t_spec; exact I1|].
-    intros s2 [I2 [N2 [_ [_ [_ G2]]]]]. split; [exact I2|]. split.
-    + eapply GG_trans; [exact G1|]. apply G2. intros x _ Hx. congruence.
-    + eapply incl_tran; [exact K1 | apply (proj1 N2)].
-  - split; [exact HI|]. split; [apply GG_refl | apply incl_refl].
+  set (HC := fst c = KTree -> forall l, In l paths -> is_prefix (snd c) l = true).
+  apply wpg_bind. eapply wpg_weaken.
+  { apply (wpg_foldM false _ (fun acc : list (key * str) => HC ->
+             forall dl, In dl acc -> fst (fst dl) = KTree -> is_prefix (snd (fst dl)) (snd dl) = true)).
+    - intros acc l Hl Hacc0. apply wpg_bind. apply wpg_of_ok. intros d Hd. apply wpg_bind.
+      destruct (check_declaration_node_t d l 61 s) as [[]|x|x]; try exact I; cbn [wpg]; [|exact Hacc0].
+      intros Hc. pose proof (Hacc0 Hc) as Hacc.
+      intros dl Hin. apply in_app_or in Hin. destruct Hin as [Hin|[<-|[]]]; [apply Hacc; exact Hin|].
+      cbn [fst snd]. eapply static_declarer_prefix; [|exact Hd]. intros E. apply Hc; assumption.
+    - intros _ dl []. }
+  intros todo Htodo. cbn beta in Htodo.
+  apply (wpg_foldM false _ (fun s' => Inv hh s' /\ GG s s' /\ KI s s' /\ (HC -> TT s s'))).
+  - intros s1 dl Hdl [I1 [G1 [K1 T1']]]. eapply wpg_weaken.
+    + apply declare_file_t_spec; exact I1.
+    + intros s2 [[I2 [N2 [_ [_ [_ G2]]]]] T2]. split; [exact I2|]. split; [|split].
+      * eapply GG_trans; [exact G1|]. apply G2. intros x _ Hx. congruence.
+      * eapply incl_tran; [exact K1 | apply (proj1 N2)].
+      * intros Hc. eapply TT_trans; [apply T1'; exact Hc|]. apply T2.
+        intros E. split; [reflexivity | apply (Htodo Hc dl Hdl E)].
+  - split; [exact HI|]. split; [apply GG_refl|]. split; [apply incl_refl | intros _; apply TT_refl].
 Qed.
 
 (* ------------------------------------------------------------------------------------------ *)
 (* _resolve_supply_file, _supply_files                                                         *)
 (* ------------------------------------------------------------------------------------------ *)
+Lemma resolve_supply_file_TT step l rn s :
+  Inv hh s -> wpg false (resolve_supply_file step l rn s) (fun r => TT s (fst r)).
+Proof.
+  intros HI. unfold resolve_supply_file. apply wpg_bind.
+  assert (Hc : wpg false (create (KFile, l) None (InitFile FUndeclared) s) (TT s)).
+  { apply (@create_TT hh); [exact HI | split; reflexivity | intros t H; discriminate H]. }
+  assert (Hfin : forall s1, TT s s1 ->
+            wpg false (let isnew := negb (has_dep (KFile, l) (KStep, step) s1) in
+                       if negb isnew && rn then Usage 205 else Ok (s1, isnew)) (fun r => TT s (fst r))).
+  { intros s1 H1. cbn zeta. destruct (negb (negb (has_dep (KFile, l) (KStep, step) s1)) && rn); cbn; auto. }
+  destruct (find_node (KFile, l) s) as [n|].
+  2:{ eapply wpg_weaken; [exact Hc | exact Hfin]. }
+  destruct (ncre n); [|eapply wpg_weaken; [exact Hc | exact Hfin]].
+  destruct (fstate_of l s) as [[]|]; try exact I; cbn [wpg]; apply Hfin; apply TT_refl.
+Qed.
+
 Lemma resolve_supply_file_t_spec step l rn s :
   Inv hh s ->
   wpg false (resolve_supply_file_t step l rn s)
-      (fun r => Inv hh (fst r) /\ KI s (fst r) /\ In (KFile, l) (KL (nodes (fst r))) /\ GG s (fst r)).
+      (fun r => Inv hh (fst r) /\ KI s (fst r) /\ In (KFile, l) (KL (nodes (fst r))) /\ GG s (fst r) /\ TT s (fst r)).
 Proof.
   intros HI.
   assert (Hbase : wpg false (resolve_supply_file step l rn s)
-            (fun r => Inv hh (fst r) /\ KI s (fst r) /\ In (KFile, l) (KL (nodes (fst r))) /\ GG s (fst r))).
-  { eapply wpg_weaken; [apply (@resolve_supply_file_spec hh); exact HI|].
-    intros r [H1 [H2 [H3 H4]]]. split; [exact H1|]. split; [apply (proj1 H2)|]. split; assumption. }
+            (fun r => Inv hh (fst r) /\ KI s (fst r) /\ In (KFile, l) (KL (nodes (fst r))) /\ GG s (fst r) /\ TT s (fst r))).
+  { eapply wpg_weaken; [apply wpg_conj; [apply (@resolve_supply_file_spec hh); exact HI | apply resolve_supply_file_TT; exact HI]|].
+    intros r [[H1 [H2 [H3 H4]]] H5]. split; [exact H1|]. split; [apply (proj1 H2)|]. split; [assumption|]. split; assumption. }
   unfold resolve_supply_file_t. destruct (is_detached (KFile, l) s) eqn:Hd; [|exact Hbase].
-  apply wpg_bind. destruct (find_owning_tree l s) as [[t|]|x|x]; try exact I; cbn [wpg]; [|exact Hbase].
+  apply wpg_bind. destruct (find_owning_tree l s) as [[t|]|x|x] eqn:Eo; try exact I; cbn [wpg]; [|exact Hbase].
   apply wpg_bind. eapply wpg_weaken.
-  { apply (@create_spec hh); [exact HI | split; [reflexivity | discriminate] | intros H; discriminate H]. }
-  intros s1 [H1 [H2 [H3 [_ [_ [_ [H7 _]]]]]]]. cbn zeta.
+  { apply wpg_conj.
+    - apply (@create_spec hh); [exact HI | split; [reflexivity | discriminate] | intros H; discriminate H].
+    - apply (@create_TT hh); [exact HI | split; [reflexivity | discriminate]|].
+      intros t0 Ht _. inversion Ht; subst t0. split; [reflexivity|]. cbn. eapply find_owning_tree_prefix; exact Eo. }
+  intros s1 [[H1 [H2 [H3 [_ [_ [_ [H7 _]]]]]]] HT]. cbn zeta.
   destruct (negb (negb (has_dep (KFile, l) (KStep, step) s1)) && rn); cbn; [exact I|].
-  split; [exact H1|]. split; [apply (proj1 H2)|]. split; [exact H3|].
+  split; [exact H1|]. split; [apply (proj1 H2)|]. split; [exact H3|]. split; [|exact HT].
   apply H7. intros f0 _ x Hx. discriminate.
 Qed.
 
 Lemma supply_files_t_spec step paths rn dyn s :
   Inv hh s -> In (KStep, step) (KL (nodes s)) ->
-  wpg false (supply_files_t step paths rn dyn s) (fun s' => Inv hh s' /\ KI s s' /\ GG s s').
+  wpg false (supply_files_t step paths rn dyn s) (fun s' => Inv hh s' /\ KI s s' /\ GG s s' /\ TT s s').
 Proof.
   intros HI Hstep. unfold supply_files_t. apply wpg_bind.
   eapply wpg_weaken.
   { apply (wpg_foldM false _ (fun acc : st * list str =>
              Inv hh (fst acc) /\ KI s (fst acc) /\ (forall l, In l (snd acc) -> In (KFile, l) (KL (nodes (fst acc)))) /\
-             GG s (fst acc))).
-    - intros acc l _ [H1 [H2 [H3 H4]]]. apply wpg_bind.
+             GG s (fst acc) /\ TT s (fst acc))).
+    - intros acc l _ [H1 [H2 [H3 [H4 H5]]]]. apply wpg_bind.
       eapply wpg_weaken; [apply resolve_supply_file_t_spec; exact H1|].
-      intros r [R1 [R2 [R3 R4]]]. cbn [wpg fst snd]. split; [exact R1|]. split; [eapply incl_tran; eassumption|].
-      split; [|eapply GG_trans; eassumption].
+      intros r [R1 [R2 [R3 [R4 R5]]]]. cbn [wpg fst snd]. split; [exact R1|]. split; [eapply incl_tran; eassumption|].
+      split; [|split; [eapply GG_trans; eassumption | eapply TT_trans; eassumption]].
       intros l' Hl'. destruct (snd r).
       + apply in_app_or in Hl'. destruct Hl' as [Hl'|[<-|[]]]; [|exact R3]. apply R2. apply H3. exact Hl'.
       + apply R2. apply H3. exact Hl'.
-    - cbn. split; [exact HI|]. split; [apply incl_refl |]. split; [intros l [] | apply GG_refl]. }
-  intros [s1 news] [H1 [H2 [H3 H4g]]]. cbn [fst snd] in *.
+    - cbn. split; [exact HI|]. split; [apply incl_refl |]. split; [intros l []|]. split; [apply GG_refl | apply TT_refl]. }
+  intros [s1 news] [H1 [H2 [H3 [H4g H5]]]]. cbn [fst snd] in *.
   assert (Hstep1 : In (KStep, step) (KL (nodes s1))) by (apply H2; exact Hstep).
   assert (Hadd : (forall l, In l news -> ~ path (EL (deps s1)) (KStep, step) (KFile, l)) ->
             wpg false (foldM (fun s l => add_dep (KFile, l) (KStep, step) dyn s) news s1)
-                (fun s' => Inv hh s' /\ KI s s' /\ GG s s')).
+                (fun s' => Inv hh s' /\ KI s s' /\ GG s s' /\ TT s s')).
   { intros Hnp. eapply wpg_weaken.
     - apply (wpg_foldM_rem false _ (fun rest s' =>
-               (Inv hh s' /\ G3 s1 s') /\ nodes s' = nodes s1 /\ incl rest news /\
+               (Inv hh s' /\ G3 s1 s') /\ (nodes s' = nodes s1 /\ files s' = files s1) /\ incl rest news /\
                (forall l, In l rest -> ~ path (EL (deps s')) (KStep, step) (KFile, l)))).
-      + intros s' l rest [[I1 I1g] [I2 [I3 I4]]]. eapply wpg_weaken.
+      + intros s' l rest [[I1 I1g] [[I2 I2f] [I3 I4]]]. eapply wpg_weaken.
         * apply (@add_dep_spec hh); [exact I1 | rewrite I2; apply H3; apply I3; left; reflexivity
                               | rewrite I2; exact Hstep1 | apply I4; left; reflexivity
                               | intros sl f Ha; discriminate | reflexivity].
         * intros s'' [J1 J2]. split; [split; [exact J1 | subst s''; eapply G3_trans; [exact I1g | apply set_deps_G3]]|].
-          subst s''. cbn [nodes deps set_deps].
-          split; [exact I2|]. split; [intros x Hx; apply I3; right; exact Hx|].
+          subst s''. cbn [nodes files deps set_deps].
+          split; [split; [exact I2 | exact I2f]|]. split; [intros x Hx; apply I3; right; exact Hx|].
           intros l' Hl' Hp. apply path_app_edge in Hp. destruct Hp as [Hp|[Hp _]].
           -- apply (I4 l'); [right; exact Hl' | exact Hp].
           -- apply (I4 l); [left; reflexivity | exact Hp].
-      + split; [split; [exact H1 | apply G3_refl]|]. split; [reflexivity|]. split; [apply incl_refl | exact Hnp].
-    - intros s' [[J1 J1g] [J2 _]]. split; [exact J1|]. split; [unfold KI; rewrite J2; exact H2|].
-      eapply GG_trans; [exact H4g | apply G3_GG; exact J1g]. }
+      + split; [split; [exact H1 | apply G3_refl]|]. split; [split; reflexivity|]. split; [apply incl_refl | exact Hnp].
+    - intros s' [[J1 J1g] [[J2 J2f] _]]. split; [exact J1|]. split; [unfold KI; rewrite J2; exact H2|].
+      split; [eapply GG_trans; [exact H4g | apply G3_GG; exact J1g]|].
+      eapply TT_trans; [exact H5 | apply TT_nodes_files; assumption]. }
   destruct news as [|l0 news'].
   - apply Hadd. intros l [].
   - destruct (would_cycle (KStep, step) (map (fun l => (KFile, l)) (l0 :: news')) s1) eqn:Ewc; [exact I|].
@@ -114,26 +215,28 @@ Qed.
 (* folds of declarations                                                                       *)
 (* ------------------------------------------------------------------------------------------ *)
 Lemma declare_fold_t_spec c f (after : str -> st -> res st) ls s :
+  fst c <> KTree ->
   (forall l s1, Inv hh s1 -> In c (KL (nodes s1)) -> In (KFile, l) (KL (nodes s1)) ->
                 creator_of (KFile, l) s1 = Some c ->
                 (exists st, fstate_of l s1 = Some st /\ (st = f \/ out_state st = true)) ->
-                wpg false (after l s1) (fun s2 => Inv hh s2 /\ nodes s2 = nodes s1 /\ GG s1 s2)) ->
+                wpg false (after l s1) (fun s2 => Inv hh s2 /\ nodes s2 = nodes s1 /\ GG s1 s2 /\ files s2 = files s1)) ->
   Inv hh s -> In c (KL (nodes s)) ->
   wpg false (foldM (fun s l => do s' <- declare_file_t c l f s; after l s') ls s)
-      (fun s' => Inv hh s' /\ KI s s' /\ (creator_quiet (Some c) f s -> GG s s')).
+      (fun s' => Inv hh s' /\ KI s s' /\ (creator_quiet (Some c) f s -> GG s s') /\ TT s s').
 Proof.
-  intros Hafter HI Hc.
-  apply (wpg_foldM false _ (fun s' => Inv hh s' /\ KI s s' /\ (creator_quiet (Some c) f s -> GG s s'))).
-  - intros s' l _ [I1 [I2 I1g]].
+  intros Hct Hafter HI Hc.
+  apply (wpg_foldM false _ (fun s' => Inv hh s' /\ KI s s' /\ (creator_quiet (Some c) f s -> GG s s') /\ TT s s')).
+  - intros s' l _ [I1 [I2 [I1g I1t]]].
     assert (Hc' : In c (KL (nodes s'))) by (apply I2; exact Hc).
     apply wpg_bind. eapply wpg_weaken; [apply declare_file_t_spec; exact I1|].
-    intros s1 [J1 [J2 [J3 [J4 [J5 J6]]]]]. eapply wpg_weaken.
+    intros s1 [[J1 [J2 [J3 [J4 [J5 J6]]]]] J7]. specialize (J7 (fun E => False_ind _ (Hct E))). eapply wpg_weaken.
     + apply Hafter; [exact J1 | apply (proj1 J2); exact Hc' | exact J3 | exact J4 | exact J5].
-    + intros s2 [K1 [K2 K3]]. split; [exact K1|]. split.
+    + intros s2 [K1 [K2 [K3 K4]]]. split; [exact K1|]. split; [|split].
       * unfold KI. rewrite K2. eapply incl_tran; [exact I2 | apply (proj1 J2)].
       * intros Hq. pose proof (I1g Hq) as G1.
         eapply GG_trans; [exact G1|]. eapply GG_trans; [|exact K3]. apply J6. eapply creator_quiet_GG; eassumption.
-  - split; [exact HI|]. split; [apply incl_refl | intros _; apply GG_refl].
+      * eapply TT_trans; [exact I1t|]. eapply TT_trans; [exact J7 | apply TT_nodes_files; assumption].
+  - split; [exact HI|]. split; [apply incl_refl|]. split; [intros _; apply GG_refl | apply TT_refl].
 Qed.
 
 (* ------------------------------------------------------------------------------------------ *)
@@ -141,22 +244,25 @@ Qed.
 (* ------------------------------------------------------------------------------------------ *)
 Lemma define_step_new_t_spec creator label inp env out vol nd s :
   Inv hh s ->
-  wpg false (define_step_new_t creator label inp env out vol nd s) (fun s' => Inv hh s' /\ GG s s').
+  wpg false (define_step_new_t creator label inp env out vol nd s) (fun s' => Inv hh s' /\ GG s s' /\ TT s s').
 Proof.
   intros HI. unfold define_step_new_t. set (k := (KStep, label)).
   apply wpg_bind. eapply wpg_weaken; [apply (@phrase_fold_spec hh); exact HI|]. intros u1 _.
   apply wpg_bind. eapply wpg_weaken; [apply (@phrase_fold_spec hh); exact HI|]. intros u2 _.
   destruct (existsb (fun l => mem_str l vol) out) eqn:Eov; [exact I|].
   apply wpg_bind. eapply wpg_weaken.
-  { apply (@create_spec hh); [exact HI | reflexivity | intros Hs; discriminate Hs]. }
-  intros s1 [I1 [NF1 [K1 [_ [_ [_ [G1 P1]]]]]]].
+  { apply wpg_conj.
+    - apply (@create_spec hh); [exact HI | reflexivity | intros Hs; discriminate Hs].
+    - apply (@create_TT hh); [exact HI | reflexivity | intros t0 _ Hk; discriminate Hk]. }
+  intros s1 [[I1 [NF1 [K1 [_ [_ [_ [G1 P1]]]]]]] T01].
   assert (G01 : GG s s1). { apply G1. intros f Hf. discriminate. }
   assert (Hp1 : sstate_of label s1 = Some SPending) by (apply (P1 nd); reflexivity).
   apply wpg_bind. eapply wpg_weaken; [apply supply_files_t_spec; [exact I1 | exact K1]|].
-  intros s2 [I2 [NF2 G12]].
+  intros s2 [I2 [NF2 [G12 T12]]].
   assert (K2 : In k (KL (nodes s2))) by (apply NF2; exact K1).
   destruct (@fold_add_env_inv hh label false true env s2 I2 K2) as [I3 N3].
   pose proof (fold_add_env_G3 label false true env s2) as G23.
+  pose proof (fold_add_env_files label false true env s2) as F23.
   set (s3 := fold_left (fun s e => add_env label e false true s) env s2) in *.
   assert (G03 : GG s s3). { eapply GG_trans; [exact G01|]. eapply GG_trans; [exact G12 | apply G3_GG; exact G23]. }
   assert (K3 : In k (KL (nodes s3))) by (rewrite N3; exact K2).
@@ -167,24 +273,29 @@ Proof.
              forall l s1, Inv hh s1 -> In k (KL (nodes s1)) -> In (KFile, l) (KL (nodes s1)) ->
              creator_of (KFile, l) s1 = Some k ->
              (exists st, fstate_of l s1 = Some st /\ (st = f \/ out_state st = true)) ->
-             wpg false (add_output_edge label l false s1) (fun s2 => Inv hh s2 /\ nodes s2 = nodes s1 /\ GG s1 s2)).
-  { intros f Hf l t H1 H2 H3 H4 [st0 [H5 H6]]. apply (@add_output_edge_spec hh); try assumption.
-    exists st0. split; [exact H5|]. destruct H6 as [->|H6]; [destruct Hf as [->| ->]; reflexivity | exact H6]. }
+             wpg false (add_output_edge label l false s1) (fun s2 => Inv hh s2 /\ nodes s2 = nodes s1 /\ GG s1 s2 /\ files s2 = files s1)).
+  { intros f Hf l t H1 H2 H3 H4 [st0 [H5 H6]]. eapply wpg_weaken.
+    - apply wpg_conj; [apply (@add_output_edge_spec hh); try assumption |
+                       apply wpg_of_ok; intros s9 H9; exact (add_output_edge_files _ _ _ _ _ H9)].
+      exists st0. split; [exact H5|]. destruct H6 as [->|H6]; [destruct Hf as [->| ->]; reflexivity | exact H6].
+    - intros s9 [[A1 [A2 A3]] A4]. auto. }
   apply wpg_bind. eapply wpg_weaken.
   { apply (declare_fold_t_spec k FPlanned (fun l s => add_output_edge label l false s) out s3);
-      [apply Hafter; auto | exact I3 | exact K3]. }
-  intros s4 [I4 [NF4 G34]]. specialize (G34 (Hq3 FPlanned)).
+      [discriminate | apply Hafter; auto | exact I3 | exact K3]. }
+  intros s4 [I4 [NF4 [G34 T34]]]. specialize (G34 (Hq3 FPlanned)).
   eapply wpg_weaken.
   { apply (declare_fold_t_spec k FVolatile (fun l s => add_output_edge label l false s) vol s4);
-      [apply Hafter; auto | exact I4 | apply NF4; exact K3]. }
-  intros s5 [I5 [_ G45]]. split; [exact I5|].
-  eapply GG_trans; [exact G03|]. eapply GG_trans; [exact G34|]. apply G45.
-  intros x _ _ Hv. exfalso. apply Hv. reflexivity.
+      [discriminate | apply Hafter; auto | exact I4 | apply NF4; exact K3]. }
+  intros s5 [I5 [_ [G45 T45]]]. split; [exact I5|]. split.
+  - eapply GG_trans; [exact G03|]. eapply GG_trans; [exact G34|]. apply G45.
+    intros x _ _ Hv. exfalso. apply Hv. reflexivity.
+  - eapply TT_trans; [exact T01|]. eapply TT_trans; [exact T12|].
+    eapply TT_trans; [apply (TT_nodes_files s2 s3 N3 F23)|]. eapply TT_trans; eassumption.
 Qed.
 
 Lemma define_step_t_spec creator label inp env out vol nd s :
   Inv hh s ->
-  wpg false (define_step_t creator label inp env out vol nd s) (fun s' => Inv hh s' /\ GG s s').
+  wpg false (define_step_t creator label inp env out vol nd s) (fun s' => Inv hh s' /\ GG s s' /\ TT s s').
 Proof.
   intros HI. unfold define_step_t. set (k := (KStep, label)).
   destruct (is_some (find_node creator s)) eqn:Ec; cbn [negb]; [|exact I].
@@ -200,6 +311,8 @@ Proof.
     - apply (@node_reattach_spec hh); [exact HI | reflexivity | intros Hs; discriminate Hs].
     - apply (@node_reattach_G3 hh); [exact HI | reflexivity]. }
   intros s1 [[I1 [NO1 _]] G01].
+  assert (T01 : TT s s1).
+  { apply TT_cre_files; [apply (g3_cre _ _ G01)|]. destruct NO1 as [_ [E _]]. exact E. }
   set (g := fun r : srow => mkS (sl r) (sst r) nd (sdef r) (sdc r) 0).
   destruct (@upd_step_inv hh label g s1 I1) as [I2 SO2]; [reflexivity | |].
   { intros r Hr _. pose proof (inv_sw _ I1 r Hr) as Hok. unfold sw_ok_b, g in *. cbn [sdef sst shold].
@@ -207,13 +320,17 @@ Proof.
   assert (G12 : G3 s1 (upd_step label g s1)). { apply upd_step_G3; [reflexivity | intros r; left; reflexivity]. }
   fold g. set (s2 := upd_step label g s1) in *.
   assert (G02 : GG s s2). { apply G3_GG. eapply G3_trans; eassumption. }
-  destruct (sstate_of label s2) as [st0|] eqn:Hss; [|cbn; split; assumption].
-  destruct st0; try (cbn; split; assumption).
+  assert (T02 : TT s s2). { eapply TT_trans; [exact T01 | apply TT_nodes_files; reflexivity]. }
+  destruct (sstate_of label s2) as [st0|] eqn:Hss; [|cbn; split; [|split]; assumption].
+  destruct st0; try (cbn; split; [|split]; assumption).
   eapply wpg_weaken.
-  - apply wpg_conj.
+  - apply wpg_conj; [apply wpg_conj; [apply wpg_conj|]|].
     + apply (@mark_step_pending_spec hh); [exact I2 | intros Hs; discriminate Hs].
     + apply (@mark_step_pending_GG hh). exact I2.
-  - intros s3 [[I3 _] G23]. split; [exact I3 | eapply GG_trans; eassumption].
+    + apply mark_step_pending_nodes.
+    + apply mark_step_pending_FT.
+  - intros s3 [[[[I3 _] G23] N23] F23]. split; [exact I3|]. split; [eapply GG_trans; eassumption|].
+    eapply TT_trans; [exact T02|]. apply TT_ND_FT; [apply ND_nodes; exact N23 | exact F23 | apply (Inv_Rows hh); exact I3].
 Qed.
 
 (* ------------------------------------------------------------------------------------------ *)
@@ -222,16 +339,17 @@ Qed.
 Lemma amend_step_t_spec label inp env out vol s :
   Inv hh s ->
   wpg false (amend_step_t label inp env out vol s)
-      (fun s' => Inv hh s' /\ (sstate_of label s <> Some SSucceeded -> GG s s')).
+      (fun s' => Inv hh s' /\ (sstate_of label s <> Some SSucceeded -> GG s s') /\ TT s s').
 Proof.
   intros HI. unfold amend_step_t. set (k := (KStep, label)).
   destruct (is_some (find_node k s) && is_some (find_step label s)) eqn:Eg; cbn [negb]; [|exact I].
   apply andb_true_iff in Eg. destruct Eg as [Ek _]. apply is_some_true in Ek. apply find_node_KL in Ek.
   apply wpg_bind. eapply wpg_weaken; [apply supply_files_t_spec; [exact HI | exact Ek]|].
-  intros s1 [I1 [NF1 G01]].
+  intros s1 [I1 [NF1 [G01 T01]]].
   assert (K1 : In k (KL (nodes s1))) by (apply NF1; exact Ek).
   destruct (@fold_add_env_inv hh label true false env s1 I1 K1) as [I2 N2].
   pose proof (fold_add_env_G3 label true false env s1) as G12.
+  pose proof (fold_add_env_files label true false env s1) as F12.
   set (s2 := fold_left (fun s e => add_env label e true false s) env s1) in *.
   assert (G02 : GG s s2). { eapply GG_trans; [exact G01 | apply G3_GG; exact G12]. }
   assert (K2 : In k (KL (nodes s2))) by (rewrite N2; exact K1).
@@ -244,27 +362,32 @@ Proof.
              forall l s1, Inv hh s1 -> In k (KL (nodes s1)) -> In (KFile, l) (KL (nodes s1)) ->
              creator_of (KFile, l) s1 = Some k ->
              (exists st, fstate_of l s1 = Some st /\ (st = f \/ out_state st = true)) ->
-             wpg false (add_output_edge label l true s1) (fun s2 => Inv hh s2 /\ nodes s2 = nodes s1 /\ GG s1 s2)).
-  { intros f Hf l t H1 H2 H3 H4 [st0 [H5 H6]]. apply (@add_output_edge_spec hh); try assumption.
-    exists st0. split; [exact H5|]. destruct H6 as [->|H6]; [destruct Hf as [->| ->]; reflexivity | exact H6]. }
+             wpg false (add_output_edge label l true s1) (fun s2 => Inv hh s2 /\ nodes s2 = nodes s1 /\ GG s1 s2 /\ files s2 = files s1)).
+  { intros f Hf l t H1 H2 H3 H4 [st0 [H5 H6]]. eapply wpg_weaken.
+    - apply wpg_conj; [apply (@add_output_edge_spec hh); try assumption |
+                       apply wpg_of_ok; intros s9 H9; exact (add_output_edge_files _ _ _ _ _ H9)].
+      exists st0. split; [exact H5|]. destruct H6 as [->|H6]; [destruct Hf as [->| ->]; reflexivity | exact H6].
+    - intros s9 [[A1 [A2 A3]] A4]. auto. }
   apply wpg_bind. eapply wpg_weaken.
   { apply (declare_fold_t_spec k FPlanned (fun l s => add_output_edge label l true s) out' s2);
-      [apply Hafter; auto | exact I2 | exact K2]. }
-  intros s3 [I3 [NF3 G23]].
+      [discriminate | apply Hafter; auto | exact I2 | exact K2]. }
+  intros s3 [I3 [NF3 [G23 T23]]].
   eapply wpg_weaken.
   { apply (declare_fold_t_spec k FVolatile (fun l s => add_output_edge label l true s) vol' s3);
-      [apply Hafter; auto | exact I3 | apply NF3; exact K2]. }
-  intros s4 [I4 [_ G34]]. split; [exact I4|]. intros Hns.
-  assert (Hq2 : creator_quiet (Some k) FPlanned s2).
-  { intros x Hx _ _. inversion Hx; subst x. eapply not_succ_GG; eassumption. }
-  eapply GG_trans; [exact G02|]. eapply GG_trans; [apply G23; exact Hq2|]. apply G34.
-  intros x _ _ Hv. exfalso. apply Hv. reflexivity.
+      [discriminate | apply Hafter; auto | exact I3 | apply NF3; exact K2]. }
+  intros s4 [I4 [_ [G34 T34]]]. split; [exact I4|]. split.
+  - intros Hns.
+    assert (Hq2 : creator_quiet (Some k) FPlanned s2).
+    { intros x Hx _ _. inversion Hx; subst x. eapply not_succ_GG; eassumption. }
+    eapply GG_trans; [exact G02|]. eapply GG_trans; [apply G23; exact Hq2|]. apply G34.
+    intros x _ _ Hv. exfalso. apply Hv. reflexivity.
+  - eapply TT_trans; [exact T01|]. eapply TT_trans; [apply (TT_nodes_files s1 s2 N2 F12)|]. eapply TT_trans; eassumption.
 Qed.
 
 (* ------------------------------------------------------------------------------------------ *)
 (* register_static_tree                                                                        *)
 (* ------------------------------------------------------------------------------------------ *)
-Lemma create_tree_spec p c s :
+Lemma create_tree_spec0 p c s :
   Inv hh s ->
   wpg false (create (KTree, p) (Some c) InitTree s)
       (fun s1 => Inv hh s1 /\ NPost (KTree, p) (Some c) (cdet_of (Some c) s) s s1 /\ GG s s1).
@@ -275,6 +398,17 @@ Proof.
   { apply (@create_nodes_spec hh); [exact HI | cbn; discriminate | apply creator_ok_new_node; exact Hco | intros Hs; discriminate Hs]. }
   intros s1 HP. cbn [wpg]. split; [eapply tree_row_inv; eassumption|]. split; [exact HP|].
   apply (NPost_GG (KTree, p) (Some c) (cdet_of (Some c) s) s s1); [cbn; discriminate | exact HP].
+Qed.
+
+Lemma create_tree_spec p c s :
+  Inv hh s ->
+  wpg false (create (KTree, p) (Some c) InitTree s)
+      (fun s1 => Inv hh s1 /\ NPost (KTree, p) (Some c) (cdet_of (Some c) s) s s1 /\ GG s s1 /\ TT s s1).
+Proof.
+  intros HI. eapply wpg_weaken.
+  - apply wpg_conj; [apply create_tree_spec0; exact HI|].
+    apply (@create_TT hh (KTree, p) (Some c) InitTree s HI); [reflexivity | intros t0 _ Hk; discriminate Hk].
+  - intros s1 [[A [B C]] D]. auto.
 Qed.
 
 (* the hand-over of a static file to its tree: only the creator column changes *)
@@ -290,10 +424,10 @@ Lemma retarget_inv x c' s n cn :
   Inv hh s -> fst x = KFile -> fst c' = KTree ->
   findn x (nodes s) = Some n -> ndet n = false ->
   findn c' (nodes s) = Some cn -> ndet cn = false ->
-  is_static_fstate (snd x) s = true ->
-  Inv hh (upd_node x (retarget c') s) /\ GG s (upd_node x (retarget c') s).
+  is_static_fstate (snd x) s = true -> is_prefix (snd c') (snd x) = true ->
+  Inv hh (upd_node x (retarget c') s) /\ GG s (upd_node x (retarget c') s) /\ TT s (upd_node x (retarget c') s).
 Proof.
-  intros HI Hx Hc' Hn Hdn Hcn Hdc Hst.
+  intros HI Hx Hc' Hn Hdn Hcn Hdc Hst Hpre.
   pose proof (inv_nw _ HI) as HW.
   set (s' := upd_node x (retarget c') s).
   assert (Hns : nodes s' = updn x (retarget c') (nodes s)) by reflexivity.
@@ -351,13 +485,17 @@ Proof.
         destruct (inv_oe _ HI d l f Hd Hsrc Hsnk n c0 Hn Hc0) as [_ [r [Hr Ho]]].
         destruct (static_not_out _ _ _ Hst Hr) as [H _]. congruence.
       * apply (inv_oe _ HI d l f Hd Hsrc Hsnk n' c Hn' Hc).
-  - constructor.
-    + intros l H. exact H.
-    + intros l H. exact H.
-    + intros l H. exact H.
-    + intros l f [A [B C]]. split; [exact A|]. split; [|exact C].
-      rewrite creator_of_findn in *. rewrite Hff in B. destruct (key_eqb (KFile, f) x); [|exact B].
-      cbn in B. inversion B. subst c'. discriminate Hc'.
+  - split.
+    + constructor.
+      * intros l H. exact H.
+      * intros l H. exact H.
+      * intros l H. exact H.
+      * intros l f [A [B C]]. split; [exact A|]. split; [|exact C].
+        rewrite creator_of_findn in *. rewrite Hff in B. destruct (key_eqb (KFile, f) x); [|exact B].
+        cbn in B. inversion B. subst c'. discriminate Hc'.
+    + intros f t H. rewrite creator_of_findn, Hff in H. destruct (key_eqb (KFile, f) x) eqn:E.
+      * left. apply key_eqb_eq in E. cbn in H. inversion H; subst c'. rewrite <- E in Hpre, Hst. cbn [snd] in *. split; [exact Hpre | exact Hst].
+      * right. split; [rewrite creator_of_findn; exact H | auto].
 Qed.
 
 Definition handover (c' : key) (under : list node) (s : st) : st :=
@@ -366,49 +504,52 @@ Definition handover (c' : key) (under : list node) (s : st) : st :=
 Lemma handover_spec c' (under : list node) : forall s,
   Inv hh s -> fst c' = KTree ->
   (forall n, In n under -> fst (nk n) = KFile /\ is_detached (nk n) s = false /\
-                           is_static_fstate (snd (nk n)) s = true /\ is_detached c' s = false) ->
-  Inv hh (handover c' under s) /\ GG s (handover c' under s) /\ KL (nodes (handover c' under s)) = KL (nodes s).
+                           is_static_fstate (snd (nk n)) s = true /\ is_detached c' s = false /\
+                           is_prefix (snd c') (snd (nk n)) = true) ->
+  Inv hh (handover c' under s) /\ GG s (handover c' under s) /\ KL (nodes (handover c' under s)) = KL (nodes s) /\
+  TT s (handover c' under s).
 Proof.
   unfold handover. induction under as [|n under IH]; intros s HI Hc' Hall; cbn [fold_left].
-  - split; [exact HI|]. split; [apply GG_refl | reflexivity].
-  - destruct (Hall n (or_introl eq_refl)) as [A1 [A2 [A3 A4]]].
+  - split; [exact HI|]. split; [apply GG_refl|]. split; [reflexivity | apply TT_refl].
+  - destruct (Hall n (or_introl eq_refl)) as [A1 [A2 [A3 [A4 A5]]]].
     rewrite is_detached_findn in A2, A4.
     destruct (findn (nk n) (nodes s)) as [m|] eqn:Hm; [|discriminate].
     destruct (findn c' (nodes s)) as [cn|] eqn:Hcn; [|discriminate].
-    destruct (retarget_inv (nk n) c' s m cn HI A1 Hc' Hm A2 Hcn A4 A3) as [I1 G1].
+    destruct (retarget_inv (nk n) c' s m cn HI A1 Hc' Hm A2 Hcn A4 A3 A5) as [I1 [G1 T01]].
     set (s1 := upd_node (nk n) (retarget c') s) in *.
-    destruct (IH s1 I1 Hc') as [I2 [G2 K2]].
-    { intros n' Hn'. destruct (Hall n' (or_intror Hn')) as [B1 [B2 [B3 B4]]]. split; [exact B1|].
+    destruct (IH s1 I1 Hc') as [I2 [G2 [K2 T12]]].
+    { intros n' Hn'. destruct (Hall n' (or_intror Hn')) as [B1 [B2 [B3 [B4 B5]]]]. split; [exact B1|].
       assert (Hd : forall y, is_detached y s1 = is_detached y s).
       { intros y. rewrite !is_detached_findn. unfold s1. rewrite nodes_upd_node, findn_updn; [|reflexivity].
         destruct (key_eqb y (nk n)); [|reflexivity]. destruct (findn y (nodes s)); reflexivity. }
-      rewrite !Hd. split; [exact B2|]. split; [exact B3 | exact B4]. }
-    split; [exact I2|]. split; [eapply GG_trans; eassumption|]. rewrite K2. unfold s1, KL. rewrite nodes_upd_node.
-    apply map_nk_updn. reflexivity.
+      rewrite !Hd. split; [exact B2|]. split; [exact B3|]. split; [exact B4 | exact B5]. }
+    split; [exact I2|]. split; [eapply GG_trans; eassumption|]. split; [|eapply TT_trans; eassumption].
+    rewrite K2. unfold s1, KL. rewrite nodes_upd_node. apply map_nk_updn. reflexivity.
 Qed.
 
 Lemma register_static_tree_spec c p s :
-  Inv hh s -> wpg false (register_static_tree c p s) (fun s' => Inv hh s' /\ GG s s').
+  Inv hh s -> wpg false (register_static_tree c p s) (fun s' => Inv hh s' /\ GG s s' /\ TT s s').
 Proof.
   intros HI. pose proof (inv_nw _ HI) as HW. unfold register_static_tree.
   destruct (negb (is_some (find_node c s))); [exact I|].
   apply wpg_bind. destruct (find_owning_tree p s) as [[t|]|x|x]; try exact I; cbn [wpg].
-  - destruct (okey_eqb _ _); [cbn; split; [exact HI | apply GG_refl]|]. destruct (str_eqb t p); exact I.
+  - destruct (okey_eqb _ _); [cbn; split; [exact HI|]; split; [apply GG_refl | apply TT_refl]|]. destruct (str_eqb t p); exact I.
   - destruct (existsb _ (nodes s)); [exact I|]. cbn zeta.
     set (under := file_nodes_under p false s).
     destruct (existsb (fun n => negb (is_static_fstate (snd (nk n)) s)) under) eqn:E1; [exact I|].
     destruct (existsb (fun n => negb (okey_eqb (ncre n) (Some c))) under) eqn:E2; [exact I|].
     apply wpg_bind. eapply wpg_weaken; [apply create_tree_spec; exact HI|].
-    intros s1 [I1 [HP G1]].
+    intros s1 [I1 [HP [G1 T01]]].
     assert (Hall : forall n, In n under -> fst (nk n) = KFile /\ is_detached (nk n) s1 = false /\
-                     is_static_fstate (snd (nk n)) s1 = true /\ is_detached (KTree, p) s1 = false).
+                     is_static_fstate (snd (nk n)) s1 = true /\ is_detached (KTree, p) s1 = false /\
+                     is_prefix (snd (KTree, p)) (snd (nk n)) = true).
     { intros n Hn. pose proof Hn as Hu. unfold under, file_nodes_under in Hn. apply filter_In in Hn. destruct Hn as [Hin Hcond].
-      rewrite !andb_true_iff in Hcond. destruct Hcond as [[[C1 C2] _] _].
+      rewrite !andb_true_iff in Hcond. destruct Hcond as [[[C1 C2] C3] _].
       apply kind_eqb_eq in C1. assert (Hdn : ndet n = false) by (destruct (ndet n); [discriminate | reflexivity]).
       pose proof (In_findn _ _ (nw_nodup _ HW) Hin) as Hfn.
       assert (Hne : nk n <> (KTree, p)). { intros E. rewrite E in C1. discriminate. }
       pose proof (np_att _ _ _ _ _ HP _ _ Hne Hfn Hdn) as Hfn1.
-      split; [exact C1|]. split; [rewrite is_detached_findn, Hfn1; exact Hdn|]. split.
+      split; [exact C1|]. split; [rewrite is_detached_findn, Hfn1; exact Hdn|]. split; [|split; [|exact C3]].
       - rewrite existsb_false_iff in E1. specialize (E1 n Hu). apply negb_false_iff in E1.
         unfold is_static_fstate, fstate_of, find_file in *. rewrite (np_files _ _ _ _ _ HP). exact E1.
       - rewrite is_detached_findn, (np_k _ _ _ _ _ HP). cbn [ndet cdet_of].
@@ -417,26 +558,37 @@ Proof.
         { apply (nw_local _ HW); [exact Hin | intros E; rewrite E in C1; discriminate]. }
         unfold local_ok in Hl. rewrite E2 in Hl. destruct Hl as [_ [_ [cn [Hcn Hd]]]].
         rewrite is_detached_findn, Hcn. congruence. }
-    destruct (handover_spec (KTree, p) under s1 I1 eq_refl Hall) as [I2 [G2 K2]].
-    unfold handover, retarget in I2, G2, K2.
-    eapply wpg_weaken; [apply declare_static_files_t_spec; exact I2|].
-    intros s3 [I3 [G3' _]]. split; [exact I3|]. eapply GG_trans; [exact G1|]. eapply GG_trans; [exact G2 | exact G3'].
+    destruct (handover_spec (KTree, p) under s1 I1 eq_refl Hall) as [I2 [G2 [K2 T12]]].
+    unfold handover, retarget in I2, G2, K2, T12.
+    eapply wpg_weaken.
+    { apply declare_static_files_t_spec; exact I2. }
+    intros s3 [I3 [G3' [_ T23]]]. split; [exact I3|]. split.
+    + eapply GG_trans; [exact G1|]. eapply GG_trans; [exact G2 | exact G3'].
+    + eapply TT_trans; [exact T01|]. eapply TT_trans; [exact T12|]. apply T23.
+      intros _ l Hl. apply In_sort_strs in Hl.
+      apply in_map_iff in Hl. destruct Hl as [n [Hn1 Hn2]]. unfold file_nodes_under in Hn2. apply filter_In in Hn2.
+      destruct Hn2 as [_ Hc]. rewrite !andb_true_iff in Hc. subst l. cbn [snd]. tauto.
 Qed.
 
 (* ------------------------------------------------------------------------------------------ *)
 (* delete_detached with the tree pre-step                                                      *)
 (* ------------------------------------------------------------------------------------------ *)
-Lemma delete_detached_t_spec s : Inv hh s -> wpg false (delete_detached_t s) (fun s' => Inv hh s' /\ GG s s').
+Lemma delete_detached_t_spec s : Inv hh s -> wpg false (delete_detached_t s) (fun s' => Inv hh s' /\ GG s s' /\ TT s s').
 Proof.
   intros HI. unfold delete_detached_t. apply wpg_bind. eapply wpg_weaken.
-  - apply (@detach_list_spec hh false (unused_tree_files s) s HI).
+  - apply wpg_conj; [|apply (foldM_ND (fun s k => node_detach k s)); intros; apply node_detach_NDw].
+    apply (@detach_list_spec hh false (unused_tree_files s) s HI).
     intros k Hk. unfold unused_tree_files in Hk. apply in_map_iff in Hk. destruct Hk as [n [Hn1 Hn2]].
     apply filter_In in Hn2. destruct Hn2 as [Hin Hc]. rewrite !andb_true_iff in Hc. destruct Hc as [[C1 _] _].
     apply kind_eqb_eq in C1. subst k. split; [intros E; rewrite E in C1; discriminate|].
     unfold KL. apply in_map. exact Hin.
-  - intros s1 [I1 [_ G1]]. eapply wpg_weaken.
-    + apply wpg_conj; [apply (@delete_detached_spec hh); exact I1 | apply delete_detached_GG].
-    + intros s2 [I2 G2]. split; [exact I2|]. eapply GG_trans; [apply G3_GG; exact G1 | exact G2].
+  - intros s1 [[I1 [NO1 G1]] N1]. eapply wpg_weaken.
+    + apply wpg_conj; [apply wpg_conj; [apply wpg_conj|]|];
+        [apply (@delete_detached_spec hh); exact I1 | apply delete_detached_GG | apply delete_detached_ND | apply delete_detached_FT].
+    + intros s2 [[[I2 G2] N2] F2]. split; [exact I2|]. split; [eapply GG_trans; [apply G3_GG; exact G1 | exact G2]|].
+      eapply TT_trans.
+      * apply TT_cre_files; [apply ND_creator; exact N1|]. destruct NO1 as [_ [E _]]. exact E.
+      * apply TT_ND_FT; [exact N2 | exact F2 | apply (Inv_Rows hh); exact I2].
 Qed.
 
 End HH.
@@ -502,13 +654,13 @@ Proof.
     + eapply wpg_weaken; [apply (@declare_static_files_t_spec true); exact HI|].
       intros s' [I' [G' _]]. eapply InvF_GG; eassumption.
     + eapply wpg_weaken; [apply (@define_step_t_spec true); exact HI|].
-      intros s' [I' G']. eapply InvF_GG; eassumption.
+      intros s' [I' [G' _]]. eapply InvF_GG; eassumption.
     + eapply wpg_weaken; [apply (@amend_step_t_spec true); exact HI|].
-      intros s' [I' G']. eapply InvF_GG; [exact HF | exact I' | apply G'; apply not_succeeded_spec; exact Hp].
+      intros s' [I' [G' _]]. eapply InvF_GG; [exact HF | exact I' | apply G'; apply not_succeeded_spec; exact Hp].
     + eapply wpg_weaken; [apply (@delete_detached_t_spec true); exact HI|].
-      intros s' [I' G']. eapply InvF_GG; eassumption.
+      intros s' [I' [G' _]]. eapply InvF_GG; eassumption.
   - cbn [step_op_t]. eapply wpg_weaken; [apply (@register_static_tree_spec true); exact HI|].
-    intros s' [I' G']. eapply InvF_GG; eassumption.
+    intros s' [I' [G' _]]. eapply InvF_GG; eassumption.
 Qed.
 
 Lemma inv_full_t_preserved s o :
@@ -525,4 +677,53 @@ Proof.
   induction ops as [|o ops IH]; intros s Hs Hp; cbn [all_prefixes_ok_t]; rewrite Hs; [reflexivity|].
   cbn in Hp. apply andb_true_iff in Hp. destruct Hp as [Hp1 Hp2]. cbn.
   apply IH; [apply inv_full_t_preserved; assumption | exact Hp2].
+Qed.
+
+(* ------------------------------------------------------------------------------------------ *)
+(* T1: a file whose creator is a static tree lies under it and is STATIC                        *)
+(* ------------------------------------------------------------------------------------------ *)
+Lemma step_op_TT o s :
+  Inv false s -> declares_files o = false -> wpg false (step_op o s) (TT s).
+Proof.
+  intros HI Hd. eapply wpg_weaken.
+  - apply wpg_conj; [apply wpg_conj|];
+      [apply (step_op_inv false o s HI); intros H; discriminate H | apply step_op_ND; exact Hd | apply step_op_FT; exact Hd].
+  - intros s' [[I' N'] F']. apply TT_ND_FT; [exact N' | exact F' | apply (Inv_Rows false); exact I'].
+Qed.
+
+Lemma step_op_t_TT o s :
+  Inv false s -> static_requester_b o = true -> wpg false (step_op_t o s) (TT s).
+Proof.
+  intros HI Hdom. destruct o as [o|c p].
+  - destruct o; cbn [step_op_t]; try (apply (step_op_TT _ s HI); reflexivity).
+    + eapply wpg_weaken; [apply (@declare_static_files_t_spec false); exact HI|]. intros s' [_ [_ [_ H]]]. apply H.
+      intros E. cbn in Hdom. apply negb_true_iff in Hdom. apply kind_eqb_eq in E. congruence.
+    + eapply wpg_weaken; [apply (@define_step_t_spec false); exact HI|]. intros s' [_ [_ H]]. exact H.
+    + eapply wpg_weaken; [apply (@amend_step_t_spec false); exact HI|]. intros s' [_ [_ H]]. exact H.
+    + eapply wpg_weaken; [apply (@delete_detached_t_spec false); exact HI|]. intros s' [_ [_ H]]. exact H.
+  - cbn [step_op_t]. eapply wpg_weaken; [apply (@register_static_tree_spec false); exact HI|]. intros s' [_ [_ H]]. exact H.
+Qed.
+
+Lemma inv_treefile_preserved s o :
+  inv_core_b s = true -> inv_treefile_b s = true -> static_requester_b o = true ->
+  inv_treefile_b (apply_op_t s o) = true.
+Proof.
+  intros Hc HT Hdom. pose proof (inv_core_t_preserved s o Hc) as Hc'.
+  apply inv_core_b_iff in Hc. apply inv_core_b_iff in Hc'.
+  apply T1_reflect; [apply (nw_nodup _ (inv_nw _ Hc'))|].
+  apply T1_reflect in HT; [|apply (nw_nodup _ (inv_nw _ Hc))].
+  unfold apply_op_t in *. pose proof (step_op_t_TT o s Hc Hdom) as Hw.
+  destruct (step_op_t o s); [eapply T1_TT; eassumption | exact HT | exact HT].
+Qed.
+
+Lemma inv_treefile_init cap : inv_treefile_b (init_st cap) = true.
+Proof. vm_compute. reflexivity. Qed.
+
+Lemma reachable_inv_treefile cap ops :
+  forallb static_requester_b ops = true -> all_prefixes_ok_t inv_treefile_b (init_st cap) ops = true.
+Proof.
+  generalize (inv_treefile_init cap). generalize (inv_core_init cap). generalize (init_st cap).
+  induction ops as [|o ops IH]; intros s Hc Hs Hp; cbn [all_prefixes_ok_t]; rewrite Hs; [reflexivity|].
+  cbn in Hp. apply andb_true_iff in Hp. destruct Hp as [Hp1 Hp2]. cbn.
+  apply IH; [apply inv_core_t_preserved; exact Hc | apply inv_treefile_preserved; assumption | exact Hp2].
 Qed.
